@@ -2,7 +2,7 @@
 from harness import frontfuzz, chk, lexer, ifdefs, parser
 
 ID = "C07"
-MODULES = ["HeraProofs.Props.C07", "HeraProofs.Props.C10", "HeraProofs.Props.C16", "HeraProofs.Props.C09", "HeraProofs.Props.C07b", "HeraProofs.Props.C07c"]
+MODULES = ["HeraProofs.Props.C07", "HeraProofs.Props.C10", "HeraProofs.Props.C16", "HeraProofs.Props.C09", "HeraProofs.Props.C07b", "HeraProofs.Props.C07c", "HeraProofs.Props.C07d"]
 GENERATED_DEPS = []
 EXPLANATION = ("Theorems over the lexer model (every loop termination-checked by Lean; corresponded with the real Lexer token by "
                "token incl. line and column on valid, damaged and random ASCII texts): C07_token_progress (every token but EOF "
@@ -16,7 +16,9 @@ EXPLANATION = ("Theorems over the lexer model (every loop termination-checked by
                "tokens, total by construction (its loops recurse only on a strictly shorter token list, otherwise a `stuck` marker "
                "is returned), corresponded with the real parser on operations, error messages and warnings with line and column; "
                "C07_parser_never_stuck / C07_parser_total prove that the marker is unreachable: for every token list each "
-               "iteration of either loop consumes a token (argStep_ok, argLoop_ok, progStep_ok, progLoop_ok). What remains - reading "
+               "iteration of either loop consumes a token (argStep_ok, argLoop_ok, progStep_ok, progLoop_ok); C07d: messages only grow and "
+               "C07_dropped_op_reports - whenever the parser leaves an operation out (unparsable argument list, unknown name) at "
+               "least one error has been recorded (argStep_msgs, argLoop_msgs, matchArglist_none_lt). What remains - reading "
                "included files, the preprocessor around it, all four modes - is decided by the watchdog fuzz stream on the real code: "
                "random ASCII incl. NUL and control characters, every operation name with arbitrary operands, damaged valid "
                "programs, hostile includes, and all ordered pairs of 46 statements sharing symbols.")
